@@ -268,6 +268,8 @@ func c19(rc *corepkg) {
 	}
 	// region reports: complete, with gaps, with stale state ids, in any order
 	reportMode := rc.Knob("report_mode", 4) // 0: honest, 1: gaps, 2: stale ids, 3: mixed
+	silentRegions := rc.Knob("silent_regions", 3) == 1
+	reported, silent := map[uint64]bool{}, map[uint64]bool{}
 	running++
 	s.Spawn(-1, "region-reporter", func() {
 		defer func() { running-- }()
@@ -279,6 +281,16 @@ func c19(rc *corepkg) {
 				rs[i], rs[j] = rs[j], rs[i]
 			}
 			for _, r := range rs {
+				// a region born from a split may never reach PD (its leader cannot talk to PD): a lasting hole in the
+				// key space PD knows, which must keep the cluster out of 'sync'
+				if !reported[r.ID] && !silent[r.ID] && silentRegions && len(reported) > 0 && s.Choose(3, "rep.silent") == 0 {
+					silent[r.ID] = true
+					rc.Extra["silent_regions"]++
+				}
+				if silent[r.ID] {
+					continue
+				}
+				reported[r.ID] = true
 				lp := r.LeaderPeer()
 				if lp == nil || !storeUp[lp.StoreID] {
 					// elect a leader on an up store
@@ -349,6 +361,9 @@ func c19(rc *corepkg) {
 			kind := s.Choose(8, "nem.kind")
 			if allUp && kind < 5 {
 				kind = 0 // with everything up, mostly take something down
+			} else if !allUp && kind == 0 {
+				// a second failure on top of the first (e.g. one dc lost and a store of the other)
+				rc.Extra["double_failures"]++
 			} else if !allUp && kind < 4 {
 				kind = 3 // with something down, mostly recover
 				if time.Now().Before(holdUntil) {
